@@ -20,6 +20,10 @@ The comparison of accumulated values is order-insensitive on top-level dependenc
 visible order) and count-insensitive when an eclass is sourced more than once (a repeated sourcing repeats the
 value; nothing is demanded about that). Everything else is compared exactly.
 
+Plan: 72 dense deterministic programs first (systematic_program: every accumulated variable x 8 ebuild-side behaviours --
+value / empty string / nothing before the inherit line, value / empty string / append / unset after it -- x EAPI 0-8, with a
+nested and an unsetting eclass), then hypothesis programs.
+
 Dropped from the design: nothing of substance; `unset -f` of phase functions and values needing shell quoting are not
 generated (metadata values are plain dependency-grammar tokens).
 """
@@ -46,7 +50,7 @@ LEVEL_NOTE = (
     "the daemon; no proof of absence. EAPI 9 not exercised (disabled on this host)."
 )
 RULE = (
-    "programs = hypothesis draws of {eapi 0-8, ebuild block <=8 stmts, <=4 eclasses with <=6 stmts, e<i> inherits only "
+    "72 deterministic dense programs (variable x ebuild-side behaviour x EAPI) + hypothesis draws of {eapi 0-8, ebuild block <=8 stmts, <=4 eclasses with <=6 stmts, e<i> inherits only "
     "e<j>, j>i}; non-trivial = at least one eclass is sourced and at least one eclass contributes a non-empty value to "
     "an accumulated variable of that EAPI or defines a phase function; distinct = distinct program text"
 )
@@ -367,22 +371,106 @@ def check_program(ctx, prog, record=True):
 
 # ---------------------------------------------------------------------------- runner interface
 
+SYS_VARS = ("IUSE", "REQUIRED_USE", "DEPEND", "RDEPEND", "PDEPEND", "BDEPEND", "IDEPEND", "PROPERTIES", "RESTRICT")
+SYS_EAPI_ORDER = ("3", "8", "0", "7", "2", "5", "1", "4", "6")
+
+
+def _sys_val(var, tag):
+    if var == "IUSE":
+        return [tag]
+    if var == "REQUIRED_USE":
+        return ["||", "(", tag, tag + "x", ")"]
+    if var in ("PROPERTIES", "RESTRICT"):
+        return [tag]
+    return ["cat/" + tag]
+
+
+def systematic_program(eapi, shift):
+    """dense deterministic program: every accumulated variable gets one of 8 ebuild-side behaviours (rotated by `shift`,
+    so the 8 shifts x 9 EAPIs cover every (variable, behaviour, EAPI) once) around `inherit outer flat`, where outer
+    inherits inner in the middle of its own assignments and flat unsets before it assigns:
+      0 value before inherit          4 empty string after inherit
+      1 empty string before inherit   5 value before, append after
+      2 never assigned                6 value before, set to empty after
+      3 value after inherit           7 value before, unset after"""
+    before, after = [], []
+    inner, outer_a, outer_b, flat = [], [], [], []
+    for i, v in enumerate(SYS_VARS):
+        b = (i + shift) % 8
+        t = v.lower().replace("_", "")[:4]
+        if b in (0, 5, 6, 7):
+            before.append(["set", v, _sys_val(v, t + "own")])
+        if b == 1:
+            before.append(["set", v, []])
+        if b == 3:
+            after.append(["set", v, _sys_val(v, t + "own")])
+        if b in (4, 6):
+            after.append(["set", v, []])
+        if b == 5:
+            after.append(["add", v, _sys_val(v, t + "own2")])
+        if b == 7:
+            after.append(["unset", v])
+        e = (i + shift) % 4
+        if e == 0:
+            inner.append(["set", v, _sys_val(v, t + "in")])
+            outer_a.append(["set", v, _sys_val(v, t + "out")])
+            outer_b.append(["add", v, _sys_val(v, t + "out2")])
+            flat += [["unset", v], ["set", v, _sys_val(v, t + "flat")]]
+        elif e == 1:
+            inner.append(["add", v, _sys_val(v, t + "in")])
+            outer_b.append(["set", v, _sys_val(v, t + "out")])
+            flat.append(["set", v, []])
+        elif e == 2:
+            inner.append(["set", v, []])
+            outer_a.append(["set", v, _sys_val(v, t + "out")])
+            outer_b.append(["unset", v])
+            flat.append(["add", v, _sys_val(v, t + "flat")])
+        else:
+            outer_a.append(["set", v, []])
+            flat += [["set", v, _sys_val(v, t + "flat")], ["copy", "DEPEND", "RDEPEND", True]]
+    phases = list(ER.ALL_PHASE_FUNCS)
+    inner.append(["phase", phases[shift % len(phases)]])
+    outer_b.append(["export", [phases[(shift + 5) % len(phases)]]])
+    after.append(["phase", phases[(shift + 9) % len(phases)]])
+    before.append(["set", "SLOT", ["0"]])
+    before.append(["set", "KEYWORDS", ["~amd64"]])
+    outer_a.append(["add", "KEYWORDS", ["x86"]])
+    return {"eapi": eapi,
+            "ebuild": before + [["inherit", ["outer", "flat"]]] + after,
+            "eclasses": {"inner": inner, "outer": outer_a + [["inherit", ["inner"]]] + outer_b, "flat": flat}}
+
+
 def plan(tier, seed):
-    if tier == "quick":
-        return [{"task": "hyp", "examples": 40} for _ in range(16)]
-    return [{"task": "hyp", "examples": 600} for _ in range(16)]
+    # one regeneration costs about one CPU second here: the dense deterministic programs come first (8 tasks x 9
+    # programs = every (variable, ebuild-side behaviour, EAPI) combination), generated programs after
+    tasks = [{"task": "systematic", "shift": sh} for sh in (6, 1, 4, 7, 0, 2, 3, 5)]
+    n, per = (12, 40) if tier == "quick" else (16, 600)
+    tasks += [{"task": "hyp", "examples": per} for _ in range(n)]
+    return tasks
 
 
 def run_task(ctx, task, **kw):
-    if task != "hyp":
-        raise core.HarnessError(f"unknown task {task}")
     ebd.ensure_generated()
     try:
-        def one(p):
-            if not ctx.out_of_time():      # budget guard per program (chunks start with hypothesis' minimal example,
-                check_program(ctx, p)      # so they are kept large and the guard sits here instead)
+        if task == "systematic":
+            for eapi in SYS_EAPI_ORDER:
+                if ctx.out_of_time():
+                    break
+                check_program(ctx, systematic_program(eapi, kw["shift"]))
+        elif task == "hyp":
+            seen = [0]
 
-        core.hyp_run(ctx, ER.programs(), one, kw["examples"], chunk=kw["examples"])
+            def one(p):
+                seen[0] += 1
+                if seen[0] == 1:
+                    return                  # a hypothesis run always starts with its minimal example (empty program)
+                if not ctx.out_of_time():   # budget guard per program
+                    check_program(ctx, p)
+
+            n = kw["examples"] + 1
+            core.hyp_run(ctx, ER.programs(), one, n, chunk=n)
+        else:
+            raise core.HarnessError(f"unknown task {task}")
     finally:
         ER.shutdown_daemons()
 
@@ -417,7 +505,7 @@ def shrink_case(ctx, bucket, case):
 
     ebd.ensure_generated()
     cur = copy.deepcopy(case)
-    budget = 60
+    budget = 20
     try:
         changed = True
         while changed and budget > 0:
